@@ -190,7 +190,7 @@ def expand(ctx, item):
         if ops.is_edit(op):
             out.append((op, ops.edit(tree, op), m2, [], "edit:" + op[0]))
             continue
-        res, post = ops.run_cmd(ctx, tree, op, now)
+        res, post = ops.run_cmd(ctx, tree, op, now, tz=op[1].get("_tz") if isinstance(op[1], dict) else None)
         out.append((op, post, m2, [], ("create", res.exit)))
     return out
 
@@ -210,6 +210,9 @@ def enabled(tree, meta):
         out.append((ops.create("", ["md5", "c4"]), m2, True))
         out.append((ops.create("u\u0308 dir", ["md5"]), m2, True))
         out.append((ops.create("", ["sha1"], sf=["e\u0301.txt", "u\u0308 dir/f\u0327.txt"]), m2, True))
+        # generations sealed in different zones: their creation-date strings do not sort like their numbers (the clock still advances)
+        out.append((["create", dict(root="", fmts=["md5"], _tz="Etc/GMT-12")], m2, True))
+        out.append((["create", dict(root="", fmts=["xxh64"], _tz="Etc/GMT+11")], m2, True))
     return out
 
 
@@ -227,7 +230,7 @@ def main(tier, seed):
     # a long history (generation numbers pass 9 -> 10) in a root and a nested history
     longbase = ops.build(eng.local_ctx(), dict(c06.BASE), [ops.create("d", ["md5"])])
     inits.append(("c06-long", longbase, dict(alpha="c06", cmds=0, edits=0, max_cmds=11 if q else 13, max_edits=0, long=True)))
-    inits.append(("unicode-names", dict(UNI), dict(alpha="c19", cmds=0, max_cmds=2 if q else 3)))
+    inits.append(("unicode-names", dict(UNI), dict(alpha="c19", cmds=0, max_cmds=3 if q else 4)))
     tot = {"states": 0, "transitions": 0}
     runs = []
     for name, tree, meta in inits:
